@@ -70,8 +70,10 @@ class C08(Engine):
         'stub': ['datagram channel and its fault recipes (vsim/wire.py)'],
     }
     tiers = {
-        'quick': dict(runs=1600, wall_cap=170, chunk=4, minimise_s=40),
-        'thorough': dict(runs=60000, wall_cap=3300, chunk=8, minimise_s=120),
+        'quick': dict(runs=1600, wall_cap=170, chunk=4, minimise_s=40,
+                      stuck_after_s=240),
+        'thorough': dict(runs=60000, wall_cap=3300, chunk=8, minimise_s=120,
+                         stuck_after_s=400),
     }
 
     def gen_case(self, run_seed):
